@@ -52,6 +52,8 @@ def default_case(**kw):
                                # ({"nframes", "pa", "pb"[, "stop_after_lap", "close_at"]}), each run like the library
                                # does (new StreamClient + protocol object on the shared context, properties applied,
                                # send_audio's reset(); afterwards the playback manager's teardown reset())
+        "reuse_client": False, # (in "prev" entries) True: the NEXT stream goes through the same StreamClient and protocol
+                               # object (send_audio called again on the client; its finally cleared the backlog)
         "teardown_reset": True,  # False: the context is NOT reset after this stream (send_audio called again on the
                                # connection without the playback manager's teardown): the next send_audio's own
                                # reset() has to do
@@ -301,7 +303,7 @@ def open_via_file(case):
         shutil.rmtree(d, ignore_errors=True)
 
 
-async def drive(case, prepared=None, shared_ctx=None):
+async def drive(case, prepared=None, shared_ctx=None, shared_client=None):
     """Run the real sender on one stream; returns the raw observation dict (with the context under "ctx")."""
     import miniaudio
     from pyatv.protocols.raop import stream_client as sc
@@ -385,8 +387,12 @@ async def drive(case, prepared=None, shared_ctx=None):
             # with the default format for the first stream, re-used for later ones), only then are the receiver's
             # properties applied through the real code path (initialize() -> _update_output_properties), and
             # send_audio() resets the context before streaming.
-            proto = make_proto(ctx, rtsp)
-            client = sc.StreamClient(rtsp, ctx, proto, None)
+            if shared_client is not None:
+                client = shared_client              # send_audio again on the same client (backlog was cleared)
+                rtsp = client.rtsp
+            else:
+                proto = make_proto(ctx, rtsp)
+                client = sc.StreamClient(rtsp, ctx, proto, None)
             client._update_output_properties(props)
         else:
             # second variant: format already on the context when the client is constructed
@@ -501,6 +507,7 @@ async def drive(case, prepared=None, shared_ctx=None):
         "calls": cipher_calls,
         "stalled": stall_log,
         "ctx": ctx,
+        "client": client,
     }
     ob.update(at_start)
     # end of the stream as the library does it: send_audio clears the backlog, RaopPlaybackManager.teardown()
@@ -530,10 +537,12 @@ def run_case(case):
     """Run all streams of the case on one StreamContext; returns [(single-stream case, observation)]."""
     out = []
     shared = None
+    client = None
     for sub in streams_of(case):
         prepared = open_via_file(sub) if sub.get("via_file") else None
-        ob = (tloop_run if sub.get("source") else vloop.run)(drive, sub, prepared, shared)
+        ob = (tloop_run if sub.get("source") else vloop.run)(drive, sub, prepared, shared, client)
         shared = ob.pop("ctx")
+        client = ob.pop("client") if sub.get("reuse_client") else (ob.pop("client") and None)
         out.append((sub, ob))
     return out
 
